@@ -6,3 +6,4 @@ import RagcModel.Model.Segment
 import RagcModel.Model.Queue
 import RagcModel.Model.Varint
 import RagcModel.Model.Container
+import RagcModel.Model.Range
